@@ -376,6 +376,17 @@ def atomizeS (m : Mode) : Item → Atom
 
 def pairsOf (l r : List Atom) : List (Atom × Atom) := l.flatMap fun a => r.map fun b => (a, b)
 
+/-- rule 3 of §3.5.2: under an ordering operator every item is converted by fn:number -/
+def pairOrdCompat (op : Op) (a b : Atom) : Except Err Bool :=
+  match fnNumber a, fnNumber b with
+  | some x, some y => .ok (six numLt numEq op x y)
+  | _, _ => .error .unsupported
+
+/-- rules 2-4 of §3.5.2 on the atomized operands -/
+def rules24 (m : Mode) (op : Op) (l r : List Atom) : Option (List Out) :=
+  if op.isOrd then allowedOfPairs ((pairsOf l r).map fun p => pairOrdCompat op p.1 p.2)
+  else allowedOfPairs ((pairsOf l r).map fun p => pairCompat m op p.1 p.2)
+
 /-- general comparison `L op R`: the permitted outcomes (`none` = not applicable) -/
 def generalAllowed (m : Mode) (op : Op) (L Rr : List Item) : Option (List Out) :=
   match m with
@@ -398,16 +409,7 @@ def generalAllowed (m : Mode) (op : Op) (L Rr : List Item) : Option (List Out) :
     match L, Rr with
     | [.atom (.bool x)], _ => one x Rr false
     | _, [.atom (.bool y)] => one y L true
-    | _, _ =>
-      let l := L.map (atomizeS m)
-      let r := Rr.map (atomizeS m)
-      if op.isOrd then
-        -- rule 3: every item is converted by fn:number
-        allowedOfPairs ((pairsOf l r).map fun (a, b) =>
-          match fnNumber a, fnNumber b with
-          | some x, some y => .ok (six numLt numEq op x y)
-          | _, _ => .error .unsupported)
-      else allowedOfPairs ((pairsOf l r).map fun (a, b) => pairCompat m op a b)
+    | _, _ => rules24 m op (L.map (atomizeS m)) (Rr.map (atomizeS m))
 
 /-- §3.7.1 rule 4: an xs:untypedAtomic operand is cast to xs:string -/
 def untypedToString : Atom → Atom
